@@ -69,12 +69,11 @@ Proof.
   - split; auto.
 Qed.
 
-Lemma not_excluded_iff q e : not_excluded_b q e = true <-> not_excluded q e.
+Lemma not_excluded_iff q named e : not_excluded_b q named e = true <-> not_excluded q named e.
 Proof.
   unfold not_excluded_b, not_excluded. destruct (is_blinded (e_kind e)).
   - rewrite negb_true_iff, <-not_true_iff_false, mem_z_In; reflexivity.
-  - apply forallb_Forall. intros i.
-    rewrite negb_true_iff, <-not_true_iff_false, mem_z_In; reflexivity.
+  - rewrite andb_true_iff, !negb_true_iff, <-!not_true_iff_false, !mem_z_In; reflexivity.
 Qed.
 
 Lemma usable_iff e : usable_b e = true <-> usable e.
